@@ -52,6 +52,8 @@ type mCall struct {
 	val      int
 	hasVal   bool
 	err      error
+	item     *cache.Item[int] // what the caller was handed ...
+	valEnd   int              // ... and what it holds at the end of the execution
 }
 
 func c17worker(arg string) {
@@ -108,6 +110,9 @@ func c17worker(arg string) {
 		add([]string{"p", "p", "p"})
 		if arg == "expiry" {
 			add([]string{"p", "p", "p", "p"})
+		} else {
+			add([]string{"p", "p", "q"}) // a second key stored after the first one was swept
+			add([]string{"p", "p"}, []string{"q"})
 		}
 	}
 	latencies := []int{0, 1, 2}
@@ -232,7 +237,7 @@ func c17scenario(c *c20ctx, fam string, prog [][]string, lat int, expiry bool) {
 					})
 					cl.err = err
 					if it != nil {
-						cl.val, cl.hasVal = it.Val(), true
+						cl.val, cl.hasVal, cl.item = it.Val(), true, it
 					}
 					cl.tRet, cl.ret = now(), vrt.Stamp()
 				}
@@ -249,6 +254,11 @@ func c17scenario(c *c20ctx, fam string, prog [][]string, lat int, expiry bool) {
 		wg.Wait()
 		for _, l := range perThread {
 			calls = append(calls, l...)
+		}
+		for _, cl := range calls { // a caller may keep what it was handed: it must not change under it
+			if cl.item != nil {
+				cl.valEnd = cl.item.Val()
+			}
 		}
 	}, func(x *vrt.Exec) (string, string) {
 		if viol != "" {
@@ -276,6 +286,9 @@ func c17scenario(c *c20ctx, fam string, prog [][]string, lat int, expiry bool) {
 				if cl.err == nil && cl.hasVal && e.ok && valueOf(e.key, e.n) == cl.val {
 					src = e
 				}
+			}
+			if cl.item != nil && cl.valEnd != cl.val {
+				return "Memoize/returned-item-changes-later", fmt.Sprintf("the item returned to the call %s (thread %d) held %d when it was returned and holds %d at the end of the execution", cl.key, cl.thread, cl.val, cl.valEnd)
 			}
 			for _, e := range execs {
 				if cl.err == nil && cl.hasVal && !e.ok && valueOf(e.key, e.n) == cl.val {
@@ -359,7 +372,7 @@ func c17scenario(c *c20ctx, fam string, prog [][]string, lat int, expiry bool) {
 			s = append(s, fmt.Sprintf("exec %s#%d ok=%t [%d,%d]", e.key, e.n, e.ok, e.start, e.end))
 		}
 		for _, cl := range calls {
-			s = append(s, fmt.Sprintf("call %s t%d [%d,%d] -> %d/%v", cl.key, cl.thread, cl.inv, cl.ret, cl.val, cl.err))
+			s = append(s, fmt.Sprintf("call %s t%d [%d,%d] @%d..%d -> %d(end %d)/%v", cl.key, cl.thread, cl.inv, cl.ret, cl.tInv, cl.tRet, cl.val, cl.valEnd, cl.err))
 		}
 		return strings.Join(s, "; ")
 	})
